@@ -158,6 +158,7 @@ class EofReceived(Contract):
     name = PW + '.eof_received'
     props = ('C14', 'C04')
     standin = False
+    inline = True       # verified on its own; connection_lost() sees its (loop-free) body, not this contract
 
     def shape(self, b):
         me, sp, ex, kind = waiter_shape(b, 'pending')
